@@ -122,3 +122,11 @@ def norm(d):
     if is_bin(d):
         return bytes(d)
     return d
+
+
+# --- C17 ---------------------------------------------------------------------------------------
+
+def sid_of(r12, c):
+    """The session id built from 12 CSPRNG bytes and the 24-bit counter value c."""
+    return base64.b64encode(r12 + c.to_bytes(3, 'big')).decode('utf-8').replace(
+        '/', '_').replace('+', '-')
